@@ -13,6 +13,7 @@ import (
 	"verifharness/c05"
 	"verifharness/c06"
 	"verifharness/c07"
+	"verifharness/c08"
 	"verifharness/c09"
 	"verifharness/c10"
 	"verifharness/c11"
@@ -30,6 +31,7 @@ type entry struct {
 }
 
 var registry = map[string]entry{
+	"c08.RunPrecedence":       {c08.Setup, c08.RunPrecedence},
 	"c13.RunPurity":           {c13.Setup, c13.RunPurity},
 	"c13.RunFootprint":        {c13.Setup, c13.RunFootprint},
 	"c13.RunBuildDeterminism": {c13.Setup, c13.RunBuildDeterminism},
